@@ -708,6 +708,24 @@ fn write_escaped(mut writer: impl io::Write, buf: &[u8]) -> io::Result<()> {
     Ok(())
 }
 
+#[cfg(feature = "verif-hooks")]
+#[allow(missing_docs)]
+pub mod verif_hooks {
+    use std::{borrow::Cow, io};
+    pub fn encode_7bit(writer: impl io::Write, value: usize) -> io::Result<()> {
+        super::encode_7bit(writer, value)
+    }
+    pub fn write_escaped(writer: impl io::Write, buf: &[u8]) -> io::Result<()> {
+        super::write_escaped(writer, buf)
+    }
+    pub fn replace_space_and_control(string: &str) -> Cow<'_, str> {
+        super::replace_space_and_control(string)
+    }
+    pub fn write_replacing_control(writer: impl io::Write, string: &str) -> io::Result<bool> {
+        super::write_replacing_control(writer, string)
+    }
+}
+
 #[cfg(test)]
 mod test {
     use super::*;
